@@ -38,6 +38,8 @@ def check(run, repo, world):
     ]
     mod = repo.mod(MOD)
     m, fn, _ = world.func(MOD + ".Commissioning")
+    fn = normalise(fn, world, MOD, primitives=("_find_next", "progress"),
+                   aliases="params", lift_values=True)
     cfg = gen_cfg(fn, MOD + ".Commissioning")
     ys = yields_of(cfg, world, MOD)
     run.floor("Commissioning yields", len(ys), 15)
@@ -112,6 +114,25 @@ def check(run, repo, world):
         return st
     W = forward_worlds(cfg, transfer, edge)
     run.analysed["worlds at exit"] = len(W.at(cfg.exit))
+
+    # ---- R-COMM-INIT ------------------------------------------------------
+    run.rule("R-COMM-INIT", "every Initialise directly follows a Terminate "
+             "(only progress / sleep items between): units left in "
+             "initialisation state by an earlier, interrupted run do not "
+             "take part")
+    for y in inits:
+        prev = _prev_commands(cfg, y.node, ynode)
+        ok = bool(prev) and all(p is not None and _is(p, "Terminate")
+                                for p in prev)
+        run.ob("R-COMM-INIT", "%s#Initialise@%s" % (
+            C, "first" if y is inits[0] else "restart"), ok,
+            "Initialise can be reached with %s as the previous command; "
+            "without a Terminate first, a unit that is still in "
+            "initialisation state from an earlier run takes part although "
+            "it is not one of the units to be addressed" % sorted(
+                {p.name if p is not None else "<start>" for p in prev
+                 if p is None or not _is(p, "Terminate")}),
+            where(mod, y.node))
 
     # ---- R-COMM-TERM ------------------------------------------------------
     run.rule("R-COMM-TERM", "every normal exit passes `yield Terminate()` "
@@ -427,6 +448,30 @@ def _next_yields(cfg, node, ynode):
     return out
 
 
+def _prev_commands(cfg, node, ynode):
+    """Previous bus commands on all paths (progress / sleep items skipped);
+    None = the function entry."""
+    out = []
+    seen = set()
+    stack = [p for (l, p) in node.pred]
+    while stack:
+        n = stack.pop()
+        if n.id in seen:
+            continue
+        seen.add(n.id)
+        y = ynode.get(n.id)
+        if y is not None and not (y.cls is not None and y.cls.qname in (
+                MOD + ".progress", MOD + ".sleep")):
+            out.append(y)
+            continue
+        if n.kind == "entry":
+            out.append(None)
+            continue
+        for (l, p) in n.pred:
+            stack.append(p)
+    return out
+
+
 def _prev_yields(cfg, node, ynode):
     out = []
     seen = set()
@@ -693,6 +738,12 @@ def _check_find_next(run, repo, world, ccfg, cys, cynode):
              "before Compare; leaf returns the clash marker iff the Compare "
              "answer has a framing error; caller restarts on the marker")
     m, fn, _ = world.func(MOD + "._find_next")
+    from ..normal import loop_to_tailcall
+    tc = loop_to_tailcall(fn)
+    if tc is not None:
+        run.note("_find_next: `while True` loop read as the tail recursion "
+                 "it abbreviates")
+        fn = tc
     fn = normalise(fn, world, MOD, primitives=("_find_next",), aliases="params")
     cfg = gen_cfg(fn, MOD + "._find_next")
     ys = yields_of(cfg, world, MOD)
@@ -944,7 +995,16 @@ def _check_advance(run, mod, C, fn):
             other.append((p_, "low unchanged"))
         elif isinstance(new, ast.Constant) and new.value is None:
             fin = p_.env.get("finished")
-            if not (isinstance(fin, ast.Constant) and fin.value is True):
+            fin_true = isinstance(fin, ast.Constant) and fin.value is True
+            if not fin_true and fin is not None:
+                # a computed flag: true on this path if the path's
+                # conditions imply it
+                try:
+                    fin_true = pred.implies(d, P.dnf(fin), [
+                        ("le", "low", "high", 0)])[0]
+                except pred.Unrecognised:
+                    fin_true = False
+            if not fin_true:
                 other.append((p_, "stops without finished = True"))
             stop.append(d)
         elif lin(new) == Lin.sym("low") + 1:
